@@ -187,7 +187,7 @@ def run_harnesses(prop, crate_dir, specs, tier, target=None, jobs=6, where="incr
         info["checks"] = len(checks)
         # split checks into: assertions written in the harness (the contract's postconditions),
         # and everything else (panics / overflow / pointer checks inside the real code)
-        markers = spec.get("markers", ["/__vx/", "src/harness"])
+        markers = spec.get("markers", ["/__vx/", "src/harness", "_harness.rs"])
         user = [c for c in checks if any(m in c["location"] for m in markers) and (".assertion." in c["name"] or ".cover." in c["name"])]
         user_ids = set(id(c) for c in user)
         other = [c for c in checks if id(c) not in user_ids]
